@@ -313,6 +313,10 @@ struct LinkMon {
     reg_err_since_up: bool,
     /// the harness's own record that this link completed a registration at least once (a REG3 was delivered to it)
     ever_established: bool,
+    /// when this link last rejoined (REG3 after having been down) and how many keepalive echoes the harness has
+    /// delivered to it since: the warming phase ends after two RTT probes or 5 s, not earlier
+    rejoined_at: Option<u64>,
+    echoes_since_rejoin: u32,
 }
 
 pub fn check(case: &Case, obs: &mut Obs, which: Which, ctx: &Ctx) -> CheckResult {
@@ -464,10 +468,30 @@ pub fn check(case: &Case, obs: &mut Obs, which: Which, ctx: &Ctx) -> CheckResult
                         );
                     }
                     m.went_down += 1;
+                    m.rejoined_at = None;
                     m.down_since = Some(now);
                     m.established = false;
                     m.reg_err_since_up = false;
                     obs.class(if broken[i] { "teardown-by-send-failure" } else { "teardown-by-timeout-or-reg-err" });
+                }
+                if let Some(t) = m.rejoined_at {
+                    if !c.connected {
+                        m.rejoined_at = None;
+                    } else if !matches!(c.phase, LinkPhase::Warming { .. }) {
+                        if which == Which::C08 {
+                            vensure!(
+                                now.saturating_sub(t) >= 5_000 || m.echoes_since_rejoin >= 2,
+                                "warming-cut-short",
+                                "{}: link {i} rejoined {} ms ago (REG3 after having been down) and is already {:?}: the warming phase ends after two RTT probes (keepalive echoes delivered since: {}) or 5 s",
+                                $what,
+                                now - t,
+                                c.phase,
+                                m.echoes_since_rejoin
+                            );
+                        }
+                        obs.class("rejoined-link-left-warming");
+                        m.rejoined_at = None;
+                    }
                 }
                 if sock_now != $socks_before[i] {
                     // a reconnect attempt (new socket)
@@ -605,6 +629,8 @@ pub fn check(case: &Case, obs: &mut Obs, which: Which, ctx: &Ctx) -> CheckResult
                             if m.went_down > 0 {
                                 m.came_back += 1;
                             }
+                            m.rejoined_at = Some(now);
+                            m.echoes_since_rejoin = 0;
                             m.down_since = None;
                         }
                         m.established = true;
@@ -612,6 +638,10 @@ pub fn check(case: &Case, obs: &mut Obs, which: Which, ctx: &Ctx) -> CheckResult
                     }
                     Some(rc::T_REG_ERR) => m.reg_err_since_up = true,
                     Some(rc::T_REG2) | Some(rc::T_REG_NGP) => {}
+                    Some(rc::T_KEEPALIVE) => {
+                        m.last_heard = Some(now);
+                        m.echoes_since_rejoin += 1;
+                    }
                     _ => m.last_heard = Some(now),
                 }
             }
